@@ -79,8 +79,11 @@ func (txn *Txn) rangeWrite(fn func(commitID uint64, chunk commit.Chunk, fill bit
 	lock := txn.owner.slock
 	txn.dirty.Range(func(x uint32) {
 		chunk := commit.Chunk(x)
+		verifYield("w.begin", uint32(chunk))
 		commitID := commit.Next()
+		verifYield("w.id", uint32(chunk))
 		lock.Lock(uint(chunk))
+		verifYield("w.latched", uint32(chunk))
 
 		// Compute the fill and set the last commit ID
 		txn.owner.lock.RLock()
@@ -90,6 +93,8 @@ func (txn *Txn) rangeWrite(fn func(commitID uint64, chunk commit.Chunk, fill bit
 
 		// Call the delegate
 		fn(commitID, chunk, fill)
+		verifYield("w.done", uint32(chunk))
 		lock.Unlock(uint(chunk))
+		verifYield("w.unlatched", uint32(chunk))
 	})
 }
